@@ -293,6 +293,139 @@ theorem driver_viewbytes_eq_run_v0_partial (c : Nat) (pre post b : Bytes) (p : P
   viewbytes_eq_memory_v0_partial Driver.SignDrv.signKeyOps Driver.SignDrv.concreteOps
     (C02Y.orderLaws_concrete _ _) c pre post b p h htx hcnt signer auth
 
+section remaining
+open Embit.Props.C02Y Embit.Props.C08W
+
+/-! ### the remaining C02Y / C02Z validity corollaries, about `Psbt.sighash` (audit2 B-2, second half)
+
+  Each statement below is the C02Y / C02Z theorem of the same name with the digest argument of `ValidWrite`
+  `fun f leaf => psbtSighash sha p i f leaf` (the private dispatch of Model/SignWith.lean) replaced by
+  `fun f leaf => Psbt.sighash sha p i f (extraOf leaf)` (the C01X model of `PSBT.sighash`): one step,
+  `validWrite_one_sighash_model` = `ValidWrite.congr_digest` + `psbtSighash_eq_model_valid`. -/
+
+/-- the step: on an input that has its utxo, a write that is valid against `psbtSighash` is valid against `Psbt.sighash` -/
+theorem validWrite_one_sighash_model {HD : Type} {ev sv : Bytes → Bytes → Bytes → Bool} {O : Ops HD} {s : InScope}
+    {u : TxOut} {eff : Nat} (sha : Bytes → Bytes) (p : Psbt) (i : Nat) (hs : p.inputs[i]? = some s)
+    (hu : s.utxo = some u) {w : Slot × Bytes}
+    (hw : ValidWrite ev sv O s u eff (fun f leaf => psbtSighash sha p i f leaf) w) :
+    ValidWrite ev sv O s u eff (fun f leaf => Psbt.sighash sha p i f (extraOf leaf)) w :=
+  ValidWrite.congr_digest (fun f leaf hl => psbtSighash_eq_model_valid sha p i s u hs hu f leaf hl) hw
+
+variable {E : Embit.EcOps}
+
+theorem added_sigs_valid_concrete (L : Embit.EcLaws E) (hn : E.n ≤ 2 ^ 256) (hp : E.p ≤ 2 ^ 256) (hinf : InfUnique E)
+    (hs : Hashes) (fuel : Nat) (signer : Signer (Embit.Keys.HDKey (toKeys E))) (auth : Option Nat)
+    (p p' : Psbt) (n : Nat) (ws : List Write) (h : signWith (opsOf E hs fuel) signer auth p = some (p', n, ws))
+    (i : Nat) (s s' : InScope) (hsi : p.inputs[i]? = some s) (hsi' : p'.inputs[i]? = some s')
+    (hkeys : KeysValid (validSecKey E) s)
+    (sl : Slot) (v : Bytes) (hv : slotValue s' sl = some v) (hnew : slotValue s sl ≠ some v) :
+    ∃ u, s.utxo = some u ∧ C02.authorisedFlag auth s.sighashType (isTaprootSpk u.spk) ∧
+      ValidWrite (ecdsaVerifySec E) (schnorrVerifyX E hs.H) (opsOf E hs fuel) s u
+        (C02.effective auth s.sighashType (isTaprootSpk u.spk))
+        (fun f leaf => Psbt.sighash hs.H.sha256 p i f (extraOf leaf)) (sl, v) := by
+  obtain ⟨u, hu, ha, hw⟩ := C02Y.added_sigs_valid_concrete L hn hp hinf hs fuel signer auth p p' n ws h i s s' hsi hsi' hkeys sl v hv hnew
+  exact ⟨u, hu, ha, validWrite_one_sighash_model _ p i hsi hu hw⟩
+
+theorem view_added_sigs_valid_concrete (L : Embit.EcLaws E) (hn : E.n ≤ 2 ^ 256) (hp : E.p ≤ 2 ^ 256)
+    (hinf : InfUnique E) (hs : Hashes) (fuel : Nat) (signer : Signer (Embit.Keys.HDKey (toKeys E)))
+    (auth : Option Nat) (p : Psbt) (b : Bytes) (n : Nat) (p' : Psbt) (ws : List Write)
+    (h : viewSignWith (opsOf E hs fuel) signer auth p = some (b, n, p', ws))
+    (i : Nat) (s s' : InScope) (hsi : p.inputs[i]? = some s) (hsi' : p'.inputs[i]? = some s')
+    (hkeys : KeysValid (validSecKey E) s)
+    (sl : Slot) (v : Bytes) (hv : slotValue s' sl = some v) (hnew : slotValue s sl ≠ some v) :
+    ∃ u, s.utxo = some u ∧ C02.authorisedFlag auth s.sighashType (isTaprootSpk u.spk) ∧
+      ValidWrite (ecdsaVerifySec E) (schnorrVerifyX E hs.H) (opsOf E hs fuel) s u
+        (C02.effective auth s.sighashType (isTaprootSpk u.spk))
+        (fun f leaf => Psbt.sighash hs.H.sha256 p i f (extraOf leaf)) (sl, v) := by
+  obtain ⟨u, hu, ha, hw⟩ := C02Y.view_added_sigs_valid_concrete L hn hp hinf hs fuel signer auth p b n p' ws h i s s' hsi hsi' hkeys sl v hv hnew
+  exact ⟨u, hu, ha, validWrite_one_sighash_model _ p i hsi hu hw⟩
+
+theorem added_sigs_valid_standards (L : Embit.EcLaws E) (hn : E.n ≤ 2 ^ 256) (hp : E.p ≤ 2 ^ 256) (hinf : InfUnique E)
+    (hs : Hashes) (fuel : Nat) (signer : Signer (Embit.Keys.HDKey (toKeys E))) (auth : Option Nat)
+    (p p' : Psbt) (n : Nat) (ws : List Write) (h : signWith (opsOf E hs fuel) signer auth p = some (p', n, ws))
+    (i : Nat) (s s' : InScope) (hsi : p.inputs[i]? = some s) (hsi' : p'.inputs[i]? = some s')
+    (hkeys : KeysValid (validSecKey E) s)
+    (sl : Slot) (v : Bytes) (hv : slotValue s' sl = some v) (hnew : slotValue s sl ≠ some v) :
+    ∃ u, s.utxo = some u ∧ C02.authorisedFlag auth s.sighashType (isTaprootSpk u.spk) ∧
+      ValidWrite (ecdsaVerifySpec E) (fun xo m sig => Spec.Bip340.verify E hs.H xo m sig) (opsOf E hs fuel) s u
+        (C02.effective auth s.sighashType (isTaprootSpk u.spk))
+        (fun f leaf => Psbt.sighash hs.H.sha256 p i f (extraOf leaf)) (sl, v) := by
+  obtain ⟨u, hu, ha, hw⟩ := C02Y.added_sigs_valid_standards L hn hp hinf hs fuel signer auth p p' n ws h i s s' hsi hsi' hkeys sl v hv hnew
+  exact ⟨u, hu, ha, validWrite_one_sighash_model _ p i hsi hu hw⟩
+
+theorem view_added_sigs_valid_standards (L : Embit.EcLaws E) (hn : E.n ≤ 2 ^ 256) (hp : E.p ≤ 2 ^ 256)
+    (hinf : InfUnique E) (hs : Hashes) (fuel : Nat) (signer : Signer (Embit.Keys.HDKey (toKeys E)))
+    (auth : Option Nat) (p : Psbt) (b : Bytes) (n : Nat) (p' : Psbt) (ws : List Write)
+    (h : viewSignWith (opsOf E hs fuel) signer auth p = some (b, n, p', ws))
+    (i : Nat) (s s' : InScope) (hsi : p.inputs[i]? = some s) (hsi' : p'.inputs[i]? = some s')
+    (hkeys : KeysValid (validSecKey E) s)
+    (sl : Slot) (v : Bytes) (hv : slotValue s' sl = some v) (hnew : slotValue s sl ≠ some v) :
+    ∃ u, s.utxo = some u ∧ C02.authorisedFlag auth s.sighashType (isTaprootSpk u.spk) ∧
+      ValidWrite (ecdsaVerifySpec E) (fun xo m sig => Spec.Bip340.verify E hs.H xo m sig) (opsOf E hs fuel) s u
+        (C02.effective auth s.sighashType (isTaprootSpk u.spk))
+        (fun f leaf => Psbt.sighash hs.H.sha256 p i f (extraOf leaf)) (sl, v) := by
+  obtain ⟨u, hu, ha, hw⟩ := C02Y.view_added_sigs_valid_standards L hn hp hinf hs fuel signer auth p b n p' ws h i s s' hsi hsi' hkeys sl v hv hnew
+  exact ⟨u, hu, ha, validWrite_one_sighash_model _ p i hsi hu hw⟩
+
+theorem parsed_added_sigs_valid (L : Embit.EcLaws E) (hn : E.n ≤ 2 ^ 256) (hp : E.p ≤ 2 ^ 256) (hinf : InfUnique E)
+    (hs : Hashes) (fuel : Nat) (validXpub : Bytes → Bool) (compress : Nat) (raw : Bytes)
+    (signer : Signer (Embit.Keys.HDKey (toKeys E))) (auth : Option Nat) (p p' : Psbt) (n : Nat) (ws : List Write)
+    (hparse : Psbt.parse (keyOpsOf E validXpub) hs.H.sha256 compress raw = some p)
+    (h : signWith (opsOf E hs fuel) signer auth p = some (p', n, ws))
+    (i : Nat) (s s' : InScope) (hsi : p.inputs[i]? = some s) (hsi' : p'.inputs[i]? = some s')
+    (sl : Slot) (v : Bytes) (hv : slotValue s' sl = some v) (hnew : slotValue s sl ≠ some v) :
+    ∃ u, s.utxo = some u ∧ C02.authorisedFlag auth s.sighashType (isTaprootSpk u.spk) ∧
+      ValidWrite (ecdsaVerifySpec E) (fun xo m sig => Spec.Bip340.verify E hs.H xo m sig) (opsOf E hs fuel) s u
+        (C02.effective auth s.sighashType (isTaprootSpk u.spk))
+        (fun f leaf => Psbt.sighash hs.H.sha256 p i f (extraOf leaf)) (sl, v) := by
+  obtain ⟨u, hu, ha, hw⟩ := C02Y.parsed_added_sigs_valid L hn hp hinf hs fuel validXpub compress raw signer auth p p' n ws hparse h i s s' hsi hsi' sl v hv hnew
+  exact ⟨u, hu, ha, validWrite_one_sighash_model _ p i hsi hu hw⟩
+
+/-! #### the driver's runs (C02Z): no hypothesis left -/
+
+theorem driver_view_added_sigs_valid_unconditional
+    (signer : Signer Driver.SignDrv.HD) (auth : Option Nat) (p : Psbt) (b : Bytes) (n : Nat) (p' : Psbt) (ws : List Write)
+    (h : viewSignWith Driver.SignDrv.concreteOps signer auth p = some (b, n, p', ws))
+    (i : Nat) (s s' : InScope) (hsi : p.inputs[i]? = some s) (hsi' : p'.inputs[i]? = some s')
+    (hkeys : KeysValid (validSecKey Crypto.secpLawful) s)
+    (sl : Slot) (v : Bytes) (hv : slotValue s' sl = some v) (hnew : slotValue s sl ≠ some v) :
+    ∃ u, s.utxo = some u ∧ C02.authorisedFlag auth s.sighashType (isTaprootSpk u.spk) ∧
+      ValidWrite (ecdsaVerifySec Crypto.secpLawful) (schnorrVerifyX Crypto.secpLawful Crypto.shaOps)
+        Driver.SignDrv.concreteOps s u (C02.effective auth s.sighashType (isTaprootSpk u.spk))
+        (fun f leaf => Psbt.sighash Crypto.sha256 p i f (extraOf leaf)) (sl, v) := by
+  obtain ⟨u, hu, ha, hw⟩ := C02Z.driver_view_added_sigs_valid_unconditional signer auth p b n p' ws h i s s' hsi hsi' hkeys sl v hv hnew
+  exact ⟨u, hu, ha, validWrite_one_sighash_model _ p i hsi hu hw⟩
+
+theorem driver_parsed_added_sigs_valid_unconditional (compress : Nat) (raw : Bytes)
+    (signer : Signer Driver.SignDrv.HD) (auth : Option Nat) (p p' : Psbt) (n : Nat) (ws : List Write)
+    (hparse : Psbt.parse Driver.SignDrv.signKeyOps Crypto.sha256 compress raw = some p)
+    (h : signWith Driver.SignDrv.concreteOps signer auth p = some (p', n, ws))
+    (i : Nat) (s s' : InScope) (hsi : p.inputs[i]? = some s) (hsi' : p'.inputs[i]? = some s')
+    (sl : Slot) (v : Bytes) (hv : slotValue s' sl = some v) (hnew : slotValue s sl ≠ some v) :
+    ∃ u, s.utxo = some u ∧ C02.authorisedFlag auth s.sighashType (isTaprootSpk u.spk) ∧
+      ValidWrite (ecdsaVerifySpec Crypto.secpLawful)
+        (fun xo m sig => Spec.Bip340.verify Crypto.secpLawful Crypto.shaOps xo m sig)
+        Driver.SignDrv.concreteOps s u (C02.effective auth s.sighashType (isTaprootSpk u.spk))
+        (fun f leaf => Psbt.sighash Crypto.sha256 p i f (extraOf leaf)) (sl, v) := by
+  obtain ⟨u, hu, ha, hw⟩ := C02Z.driver_parsed_added_sigs_valid_unconditional compress raw signer auth p p' n ws hparse h i s s' hsi hsi' sl v hv hnew
+  exact ⟨u, hu, ha, validWrite_one_sighash_model _ p i hsi hu hw⟩
+
+theorem driver_parsed_view_added_sigs_valid_unconditional (compress : Nat) (raw : Bytes)
+    (signer : Signer Driver.SignDrv.HD) (auth : Option Nat) (p : Psbt) (b : Bytes) (n : Nat) (p' : Psbt) (ws : List Write)
+    (hparse : Psbt.parse Driver.SignDrv.signKeyOps Crypto.sha256 compress raw = some p)
+    (h : viewSignWith Driver.SignDrv.concreteOps signer auth p = some (b, n, p', ws))
+    (i : Nat) (s s' : InScope) (hsi : p.inputs[i]? = some s) (hsi' : p'.inputs[i]? = some s')
+    (sl : Slot) (v : Bytes) (hv : slotValue s' sl = some v) (hnew : slotValue s sl ≠ some v) :
+    ∃ u, s.utxo = some u ∧ C02.authorisedFlag auth s.sighashType (isTaprootSpk u.spk) ∧
+      ValidWrite (ecdsaVerifySpec Crypto.secpLawful)
+        (fun xo m sig => Spec.Bip340.verify Crypto.secpLawful Crypto.shaOps xo m sig)
+        Driver.SignDrv.concreteOps s u (C02.effective auth s.sighashType (isTaprootSpk u.spk))
+        (fun f leaf => Psbt.sighash Crypto.sha256 p i f (extraOf leaf)) (sl, v) := by
+  obtain ⟨u, hu, ha, hw⟩ := C02Z.driver_parsed_view_added_sigs_valid_unconditional compress raw signer auth p b n p' ws hparse h i s s' hsi hsi' sl v hv hnew
+  exact ⟨u, hu, ha, validWrite_one_sighash_model _ p i hsi hu hw⟩
+
+end remaining
+
 /-! ### non-vacuity -/
 
 /-- a version-0 PSBT with one P2WPKH input whose key hash is the toy environment's `hash160` of the key `02 07` -/
